@@ -24,7 +24,7 @@ def run(ctx: Ctx) -> int:
         "13-block function with three subroutines (shared callee, two call chains with different contexts) under a solver-chosen schedule (24 / 48-400 orders of both initial "
         "worklists; the choice is the symbolic variable, the analysis itself then runs concretely inside NoTracing) and give the same sets; (3) every detector, run on contexts with symbolic content, leaves them unchanged. Outside the "
         "technique: PYTHONHASHSEED, object-address order of list(set(..)), byte-identical JSON across processes - properties of interpreter runs, not of a function a solver can range over",
-        [D.forward_analyis, D.backward_analysis, GroupIndices._get_asserted_int_values, du.validated_in_block, du.detect_missing_tx_field_validations],
+        [lambda: D.forward_analyis, lambda: D.backward_analysis, lambda: GroupIndices._get_asserted_int_values, lambda: du.validated_in_block, lambda: du.detect_missing_tx_field_validations],
         {"permutations": "24 orders of each initial worklist", "sets": "3-element universes per lattice law"},
         ["hash-seed / process-level determinism is not claimed"],
         timeout_quick=400, timeout_thorough=1200,
